@@ -259,7 +259,7 @@ func TestVerifC03(t *testing.T) {
 									}
 								}
 								sc := c03cfg{insecure, resource, sm, resumable, starttls, session, smAdv}
-								scs = append(scs, hx.Scenario{Name: sc.name(), Opt: vrt.Options{Bound: 0}, Body: c03body(sc), Verdict: c03verdict})
+								scs = append(scs, hx.Scenario{Name: sc.name(), Opt: vrt.Options{Bound: thoroughBound(1)}, Body: c03body(sc), Verdict: c03verdict})
 							}
 						}
 					}
